@@ -260,6 +260,81 @@ def fam_boundary2(rng, tier, i):
           "read_all i%d u" % (tC - 1), "close", open_line("b"), "read_all i%d u" % (tB - 1), "len", "close", "dump"]
     return {"family": "boundary2", "lines": s, "tags": {"p%d" % p, "big"}}
 
+def fam_lastmeta(rng, tier, i):
+    """the backwards search for the last full timestamp on open (windows of 10 000 bytes rounded up to whole lines,
+    counted from the END of the data, overlapping by one section header): the header of the last section straddles the
+    start of a window at every split point; the index is one entry short, two short, absent or intact; optionally the
+    data is torn inside its last line. Then the queries whose answers depend on the full timestamp the search found,
+    and appends encoded against it (C05 C06 C12 C15 C04)"""
+    combos = [(p, d) for p in (0, 1, 2, 3, 4) for d in range(-1, K(p) + 2)]
+    p, d = combos[(i * 5 + rng.randrange(len(combos))) % len(combos)]
+    L = p + 2
+    Kp = K(p)
+    W = ((max(10000, 2 * Kp * L) + L - 1) // L * L) // L            # window, in lines
+    which_window = rng.choice([1, 1, 2])                           # straddle the first or the second window start
+    step_w = W - Kp                                                # a later window starts (W - overlap) further back
+    n = (W if which_window == 1 else W + step_w) - Kp + d          # lines of the last section
+    base = rng.choice([1000, 2**33 + 17, 2**50 + 3])
+    nA = rng.choice([7, W + 40])
+    s = [new_line("m", p), "pushseq %d 1 %d %d" % (base, nA, rng.randrange(256))]
+    tB = base + nA + 70000 + rng.randrange(0, 500)
+    torn = rng.random() < 0.35
+    s.append("pushseq %d 1 %d %d" % (tB, n + (1 if torn else 0), rng.randrange(256)))
+    last = tB + n - 1
+    s.append("close")
+    if torn:
+        s.append("fs_cut data:m %d" % rng.randrange(1, L))
+    st = rng.random()
+    if st < 0.5:
+        s.append("fs_cut index:m 16")
+    elif st < 0.6:
+        s.append("fs_cut index:m 32")
+    elif st < 0.75:
+        s.append("fs_rm index:m")
+    elif st < 0.85:
+        s.append("fs_cut index:m %d" % rng.randrange(1, 16))
+    s += [open_line("m"), "len", "range", "last_line", "read_all i%d u" % (tB - 1), "n_lines i%d u" % (last - 3),
+          "read_first_n 2 i%d u" % (tB + 1),
+          "push %d %s" % (last + 1, hexb(payload(rng, p))), "push %d %s" % (last + 65000, hexb(payload(rng, p))),
+          "read_all i%d u" % (last - 2), "close", open_line("m"), "len", "range", "read_all i%d u" % (last - 2), "close", "dump"]
+    return {"family": "lastmeta", "lines": s, "tags": {"p%d" % p, "big"}}
+
+def fam_interleave(rng, tier, i):
+    """reads of every kind, which leave the file cursor at different places, each followed by an append - with a small
+    delta, and with a delta that opens a new full-timestamp section - in the creating session and after a reopen: the
+    files may only grow at the end, and everything reads back (C16 C01 C15)"""
+    p = rng.choice(SMALL_P)
+    reopen_at = rng.choice([None, 0, 1, 2])
+    caches = () if reopen_at is not None else rng.choice([(), (), (2,), (1, 3)])
+    lines = mk_lines(rng, p, rng.choice([4, 6, 9]), shape=rng.choice(["mixed", "jitter", "sparse"]), no_marker=True)
+    if not lines:
+        lines = mk_lines(rng, p, 4, shape="jitter", base=5, no_marker=True)
+    tss = [t for t, _ in lines]
+    s = [new_line("a", p, caches=caches)] + push_lines(lines)
+    last = tss[-1]
+    for r in range(rng.choice([3, 5, 7])):
+        if reopen_at == r:
+            s += ["close", open_line("a", caches=caches)]
+        lo, hi = bounds_critical(rng, tss, 1)[0]
+        k = rng.random()
+        if k < 0.3:
+            s.append("read_all %s %s" % (lo, hi))
+        elif k < 0.55:
+            s.append("read_first_n %d %s %s" % (rng.choice([1, 2, 3]), lo, hi))
+        elif k < 0.75:
+            s.append("n_lines %s %s" % (lo, hi))
+        elif k < 0.9:
+            s.append("read_n %d %s %s" % (rng.choice([1, 2, 5]), lo, hi))
+        else:
+            s.append(rng.choice(["last_line", "len", "range"]))
+        last += rng.choice([1, 7, 65534, 65535, 70000, 10**6])
+        if last >= U64:
+            break
+        s.append("push %d %s" % (last, hexb(payload(rng, p))))
+        tss.append(last)
+    s += ["read_all u u", "close", "dump"]
+    return {"family": "interleave", "lines": s, "tags": {"p%d" % p}}
+
 def fam_boundary_reader(rng, tier, i):
     """the reader's own boundaries: its first buffer starts after the first section, so a section
     starting `off` slots around slot K + k*chunk_slots is split by the k-th buffer end (C01)"""
@@ -754,7 +829,7 @@ def fam_totality(rng, tier, i):
     return {"family": "totality", "lines": s, "tags": {"p%d" % p}}
 
 FAMILIES = {f.__name__[4:]: f for f in [
-    fam_roundtrip, fam_boundary, fam_boundary2, fam_boundary_reader, fam_bigsection, fam_sparse_boundary, fam_ranges, fam_refuse, fam_reopen, fam_reopen_marker,
+    fam_roundtrip, fam_boundary, fam_boundary2, fam_lastmeta, fam_interleave, fam_boundary_reader, fam_bigsection, fam_sparse_boundary, fam_ranges, fam_refuse, fam_reopen, fam_reopen_marker,
     fam_bigline, fam_torn, fam_index_states, fam_format, fam_assets, fam_caches, fam_caches_reopen,
     fam_caches_faults, fam_cache_sections, fam_resample, fam_contract, fam_corrupt, fam_totality]}
 
